@@ -29,7 +29,9 @@ package trace
 //@   loop#1 decreases n-1-i
 //@ func checkKeyRemain(key string) (ok bool)
 //@   ensures ok == allRest(key, 0, len(key))
-//@   loop#1 invariant forall k in 0 .. $off : keyRest(key[k])
+//@   loop#1 invariant 0 <= i && i <= len(key)
+//@   loop#1 invariant forall k in 0 .. i : keyRest(key[k])
+//@   loop#1 decreases len(key) - i
 
 // simple-key = lcalpha 0*255(keyRest); system-id = lcalpha 0*13(keyRest); tenant-id = (lcalpha / DIGIT) 0*240(keyRest)
 //@ spec keyPart(s string, n int) bool = 1 <= len(s) && len(s) <= n+1 && lcalpha(s[0]) && allRest(s, 1, len(s))
